@@ -3191,6 +3191,57 @@ Proof.
   - exists a, i, rest. split; [exact Ha|]. intros ->. apply (Hnc a rest Ha).
 Qed.
 
+(* Turn waits never close a cycle: an Async+Sequential delivery that waits for its turn holds nothing, and nobody waits
+   for it (only the head of a queue is waited for) - so a rank for the mutex waits alone suffices.  PROGRESS with the
+   acyclicity hypothesis on handler-mutex waits only: the ordering of Async+Sequential deliveries adds no deadlock. *)
+Lemma rank_le_max (rank : actor -> nat) {V} (l : list (nat * V)) b c :
+  assoc_get l b = Some c -> rank b <= list_max (map (fun x => rank (fst x)) l).
+Proof.
+  induction l as [|[k v] r IH]; cbn [assoc_get map list_max fold_right fst]; [discriminate|].
+  destruct (Nat.eqb k b) eqn:E; intros H.
+  - apply Nat.eqb_eq in E. subst. lia.
+  - specialize (IH H). unfold list_max in IH. lia.
+Qed.
+
+Theorem progress_mutex_waits_only P cfg s : Pwf P -> reachable P cfg s ->
+  forall rank : actor -> nat,
+  (forall a h rest b, assoc_get (code s) a = Some (ILock h :: rest) -> assoc_get (seqlocks s) (r_id h) = Some b -> rank b < rank a) ->
+  (forall a rest, assoc_get (code s) a <> Some (ICrashed :: rest)) ->
+  (exists a i rest, assoc_get (code s) a = Some (i :: rest)) ->
+  exists b s' ls, mstep P cfg s b = Some (s', ls).
+Proof.
+  intros HP R rank H1 Hnc Hex.
+  pose proof (turn_queue_discipline P cfg s R) as Q.
+  set (M := S (list_max (map (fun x => rank (fst x)) (code s)))).
+  set (waits := fun a => match assoc_get (code s) a with
+                         | Some (ITaskStart _ h :: _) => h_seq (r_spec h) && negb (at_head (queue s (r_id h)) a)
+                         | _ => false end).
+  set (rank' := fun a => if waits a then M else rank a).
+  assert (Hlt : forall b c, assoc_get (code s) b = Some c -> rank b < M).
+  { intros b c Hb. unfold M. pose proof (rank_le_max rank (code s) b c Hb). lia. }
+  apply (progress P cfg s HP R rank'); [| |exact Hnc|exact Hex].
+  - (* mutex waits: neither end waits for a turn *)
+    intros a h rest b Ha Hb. unfold rank', waits. rewrite Ha.
+    destruct (no_orphaned_handler_lock P cfg s R (r_id h) b Hb) as [cb [Hcb Hheld]]. rewrite Hcb.
+    destruct cb as [|ib restb]; [apply (H1 a h rest b Ha Hb)|].
+    destruct ib; try apply (H1 a h rest b Ha Hb).
+    (* the holder cannot be a fresh delivery: that holds nothing *)
+    destruct (q_sole s Q b _ Hcb) as [N|[p' [h' E]]]; [specialize (N _ (or_introl eq_refl)); discriminate|].
+    inversion E; subst. cbn in Hheld. lia.
+  - (* turn waits: the waiter gets the top rank, the head does not wait *)
+    intros a p h rest b more Ha Hs Hq Nb. unfold rank', waits. rewrite Ha, Hs, Hq. cbn [at_head andb].
+    assert (Eb : Nat.eqb b a = false) by (apply Nat.eqb_neq; exact Nb). rewrite Eb. cbn [negb].
+    destruct (q_live s Q (r_id h) b) as [cb [Hcb Hw]]; [rewrite Hq; left; reflexivity|]. rewrite Hcb.
+    destruct cb as [|ib restb]; [apply (Hlt b _ Hcb)|].
+    destruct ib; try apply (Hlt b _ Hcb).
+    destruct (h_seq (r_spec h0)) eqn:Hs0; cbn [andb]; [|apply (Hlt b _ Hcb)].
+    destruct (q_sole s Q b _ Hcb) as [N|[p' [h' E]]]; [specialize (N _ (or_introl eq_refl)); discriminate|].
+    inversion E; subst p' h' restb.
+    pose proof (q_fresh s Q b p0 h0 Hcb Hs0) as Hin.
+    assert (Er : r_id h0 = r_id h) by (apply (q_one s Q (r_id h0) (r_id h) b Hin); rewrite Hq; left; reflexivity).
+    rewrite Er, Hq. cbn [at_head]. rewrite Nat.eqb_refl. cbn [negb]. apply (Hlt b _ Hcb).
+Qed.
+
 (* ================================================================== *)
 (* C04: "exactly once when eligible" has one residual hole in the faithful model: a synchronous Once handler is claimed
    (context live), another goroutine cancels the context before the publisher reaches the per-handler cancellation
